@@ -218,6 +218,22 @@ def gen_scale_file(r):
     return "%s\nint main(void) { return e0 + E%d; }\n" % ("enum { e0, %s };" % ", ".join("E%d" % i for i in range(n)), n - 1)
 
 
+def gen_lex_file(r):
+    """lexical corners: literal spellings, escapes, encodings, and a diagnostic after tabs / multi-byte text"""
+    forms = ['long a%d = 0b1011LLU + 0x7fLu + 017l + 1uLL;', 'double d%d = 0x1.8p+3 + 0x.8p1 + 1e-320 + 1E+308 + .5e1;', 'float f%d = 0x1p-149f + 3.4028235e38F + 1e-46f;',
+             'long double l%d = 0x1p-16445L + 1.1897314953572317650857593266280070162E+4932L;', 'char s%d[] = "\\x41\\101\\7\\e\\u00e9\\U0001F600\\x7f" "tail";',
+             'unsigned short u%d[] = u"a\\u00e9😀b";', 'unsigned w%d[] = U"x😀\\U0010FFFF";', 'int c%d = \'\\377\' + \'\\x80\' + \'ab\' + L\'\\xffff\' + u\'é\';',
+             'char r%d[] = "café 世界";', 'int été%d = 1, naïve%d = 2;', 'long big%d = 18446744073709551615 + 9223372036854775808 + 0xFFFFFFFFFFFFFFFF;',
+             'int t%d = 1 ?""[0] : \'\\0\';', '#define STR%d(x) #x\nchar q%d[] = STR%d(  a  "b\\n"   \'c\' );', 'int line%d = __LINE__ + __COUNTER__ + __INCLUDE_LEVEL__;']
+    out = []
+    for i in range(r.range(3, 9)):
+        f = r.pick(forms)
+        out.append(f.replace("%d", str(i)))
+    if r.below(2):
+        out.append(r.pick(["\t\tint café = 3 $ 4;", "  char *p = \"世界\" @;", "\tint x = 08 + 1;", "int y = 0x;", "int z = 1.5e+;", "char c = '';", 'char *s = "unterminated;', "int big = 99999999999999999999999;"]))
+    return "\n".join(out) + "\nint main(void) { return 0; }\n"
+
+
 def list_inputs(src):
     own = [os.path.join(src, f) for f in sorted(os.listdir(src)) if f.endswith(".c")]
     tests = [os.path.join(src, "test", f) for f in sorted(os.listdir(os.path.join(src, "test"))) if f.endswith(".c")]
@@ -235,9 +251,12 @@ OPTION_SETS = [["-###"], ["-###", "-c"], [], ["-###", "-static"], ["-###", "-sha
 
 def gen_case(seed, src, own, tests, avail=None):
     r = Rng(seed)
-    x = r.below(26)
+    x = r.below(27)
     gen_text = None
-    if x >= 24:
+    if x >= 25:
+        path, mutated = tests[0], False
+        gen_text = gen_lex_file(r)
+    elif x >= 24:
         path, mutated = tests[0], False
         gen_text = gen_scale_file(r)
     elif x >= 20:
